@@ -1464,6 +1464,9 @@ func (eval Evaluator) Rescale(op0, opOut *rlwe.Ciphertext) (err error) {
 	level := op0.Level()
 	ringQ := eval.parameters.RingQ().AtLevel(level)
 
+	// The result has the degree of op0 (a receiver of another degree is resized, as ckks.Evaluator.Rescale does)
+	opOut.Resize(op0.Degree(), opOut.Level())
+
 	for i := range opOut.Value {
 		ringQ.DivRoundByLastModulusNTT(op0.Value[i], eval.buffQ[0], opOut.Value[i])
 	}
